@@ -4,6 +4,7 @@ import (
 	"bytes"
 	"context"
 	"fmt"
+	"os"
 	"time"
 
 	rhp4 "go.sia.tech/core/rhp/v4"
@@ -25,6 +26,12 @@ type Options struct {
 	// HostBlocks / RenterBlocks is the number of block rewards each wallet is
 	// funded with (one spendable output each).
 	HostBlocks, RenterBlocks int
+	// Observer adds an independent third chain manager that is fed every block
+	// and whose pool nobody else touches: the judge of "accepted by a pool".
+	Observer bool
+	// Bystander adds a third funded wallet on the host node whose transactions
+	// change the accumulator without touching host or renter funds.
+	Bystander bool
 }
 
 // A Lab is one host, one renter and the man-in-the-middle between them.
@@ -52,6 +59,9 @@ type Lab struct {
 	Inj       *Injector
 	HostChain *HostChain
 	RentPool  *RenterPool
+
+	Observer  *Node   // nil unless Options.Observer
+	Bystander *Wallet // nil unless Options.Bystander
 }
 
 // BasePrices are the host prices used by every lab.
@@ -99,8 +109,23 @@ func NewLab(opt Options) (*Lab, error) {
 	l.Signer = &RenterSigner{W: l.RentWallet, Key: l.RenterKey, UseUnconfirmed: true}
 	l.HostAddr = l.HostWallet.Address()
 
+	if opt.Observer {
+		if l.Observer, err = NewNode("observer", n, genesis); err != nil {
+			return nil, err
+		}
+	}
+	if opt.Bystander {
+		if l.Bystander, err = l.HostNode.NewWallet("bystander", types.GeneratePrivateKey()); err != nil {
+			return nil, err
+		}
+	}
 	// fund both wallets, one block reward per output
 	for i := 0; i < opt.HostBlocks || i < opt.RenterBlocks; i++ {
+		if opt.Bystander && i < 8 {
+			if err := l.Mine(l.Bystander.Address(), 1); err != nil {
+				return nil, err
+			}
+		}
 		if i < opt.HostBlocks {
 			if err := l.Mine(l.HostWallet.Address(), 1); err != nil {
 				return nil, err
@@ -141,7 +166,11 @@ func NewLab(opt Options) (*Lab, error) {
 	l.Server = rhp.NewServer(l.HostKey, l.HostChain, l.Contractor, l.HostWallet, l.Settings, l.Sectors,
 		rhp.WithPriceTableValidity(12*time.Hour), rhp.WithRPCTimeout(10*time.Minute))
 	l.T = NewTransport(l.HostKey.PublicKey())
-	go l.Server.Serve(l.T.Mux(), zap.NewNop())
+	log := zap.NewNop()
+	if os.Getenv("VERIF_DEBUG_HOSTLOG") != "" { // development aid: the host's own log
+		log, _ = zap.NewDevelopment()
+	}
+	go l.Server.Serve(l.T.Mux(), log)
 
 	if err := l.RefreshPrices(); err != nil {
 		return nil, err
@@ -164,10 +193,42 @@ func (l *Lab) Mine(addr types.Address, count int) error {
 	if err != nil {
 		return err
 	}
-	if l.RenterNode != l.HostNode {
+	return l.Relay(blocks, true)
+}
+
+// Relay feeds blocks mined on the host node to the observer and, if
+// toRenter, to the renter's node.
+func (l *Lab) Relay(blocks []types.Block, toRenter bool) error {
+	if toRenter && l.RenterNode != l.HostNode {
 		if err := l.RenterNode.AddBlocks(blocks); err != nil {
 			return fmt.Errorf("%w: relaying to renter node: %v", ErrHarness, err)
 		}
+	}
+	if l.Observer != nil {
+		if err := l.Observer.AddBlocks(blocks); err != nil {
+			return fmt.Errorf("%w: relaying to observer node: %v", ErrHarness, err)
+		}
+	}
+	return nil
+}
+
+// Poke puts a bystander self-payment into the host node's pool: the next
+// block then spends and creates outputs next to the wallets' own ones.
+func (l *Lab) Poke() error {
+	if l.Bystander == nil {
+		return nil
+	}
+	w := l.Bystander.W
+	fee := w.RecommendedFee().Mul64(2000)
+	txn := types.V2Transaction{MinerFee: fee, SiacoinOutputs: []types.SiacoinOutput{{Address: w.Address(), Value: types.Siacoins(1)}}}
+	basis, toSign, err := w.FundV2Transaction(&txn, types.Siacoins(1).Add(fee), true)
+	if err != nil {
+		return fmt.Errorf("%w: bystander funding: %v", ErrHarness, err)
+	}
+	w.SignV2Inputs(&txn, toSign)
+	if _, err := l.HostNode.CM.AddV2PoolTransactions(basis, []types.V2Transaction{txn}); err != nil {
+		w.ReleaseInputs(nil, []types.V2Transaction{txn})
+		return fmt.Errorf("%w: bystander transaction rejected: %v", ErrHarness, err)
 	}
 	return nil
 }
